@@ -107,6 +107,7 @@ class CFG:
         self.inline_named_lambdas = inline_named_lambdas
         self._collect_aliases(fa.body)
         self.flags = self._collect_flags(fa.body)
+        self.stable = self._collect_stable(fa)
         self.entry = self._new("entry").id
         self.exit = self._new("exit").id
         self.exc_exit = self._new("exc_exit").id
@@ -158,6 +159,31 @@ class CFG:
                 # passed by (possibly non-const) reference to an unknown callee: stay conservative only for out-params
                 pass
         return {k for k, v in cand.items() if v == 1 and k not in bad}
+
+    def _collect_stable(self, fa: C.FuncAST) -> Set[str]:
+        """Plain local / parameter names that are never modified after initialisation: tests of the same name
+        are correlated by Flow (if (p) A; ... if (p) B;)."""
+        declared: Dict[str, int] = {}
+        for _, nm in fa.params:
+            if nm:
+                declared[nm] = 1
+        for n in fa.body.walk():
+            if isinstance(n, C.Declarator) and n.bindings is None:
+                declared[n.name] = declared.get(n.name, 0) + 1
+        bad: Set[str] = set()
+        for n in fa.body.walk():
+            if isinstance(n, C.Binary) and n.op in C._ASSIGN and isinstance(n.l, C.Id):
+                bad.add(n.l.name)
+            elif isinstance(n, (C.Unary, C.Postfix)) and n.op in ("++", "--", "&") and isinstance(n.e, C.Id):
+                bad.add(n.e.name)
+            elif isinstance(n, C.Call) and isinstance(n.fn, C.Member) and not n.fn.arrow and isinstance(n.fn.obj, C.Id) \
+                    and n.fn.name not in ("has_value", "valid", "empty", "size", "get", "view", "data"):
+                bad.add(n.fn.obj.name)
+            elif isinstance(n, C.Call):
+                for a in n.args:
+                    if isinstance(a, C.Call) and callee_name(a) in ("move", "std::move") and a.args and isinstance(a.args[0], C.Id):
+                        bad.add(a.args[0].name)
+        return {k for k, v in declared.items() if v == 1 and k not in bad and k not in self.flags}
 
     def _new(self, kind: str, label: str = "", ast: Optional[C.Node] = None, ctx: Optional[Ctx] = None) -> N:
         n = N(len(self.nodes), kind, label, ast, self.fa.line(ast) if ast is not None else 0)
@@ -764,6 +790,13 @@ class Flow:
                     continue
                 if f"flag:{n.label}=false" in rel and lab == "T":
                     continue
+            elif n.kind == "cond" and lab in ("T", "F") and n.label in self.cfg.stable:
+                if f"cond:{n.label}=T" in rel and lab == "F":
+                    continue
+                if f"cond:{n.label}=F" in rel and lab == "T":
+                    continue
+                res.append(((tgt, out_rel | {f"cond:{n.label}={lab}"}), lab))
+                continue
             res.append(((tgt, out_rel), lab))
         return res
 
